@@ -27,6 +27,7 @@ type FrameDecl struct {
 	Kind    string // writers | onlyvia
 	Target  string // "Struct.field" or a function key
 	Allowed []string
+	Props   []string // properties whose check decides this declaration
 	Line    int
 }
 
@@ -38,7 +39,7 @@ func outerFn(f *ssa.Function) *ssa.Function {
 	return f
 }
 
-func (d *Driver) DisciplineFrames() *FuncVC {
+func (d *Driver) DisciplineFrames(prop string) *FuncVC {
 	ex := d.newExec(nil, "discipline/frames", false)
 	vc := ex.vc
 	fvc := &FuncVC{Key: "discipline/frames", VC: vc}
@@ -59,10 +60,16 @@ func (d *Driver) DisciplineFrames() *FuncVC {
 		keys = append(keys, k)
 	}
 	sort.Strings(keys)
-	if len(d.cs.Frames) == 0 {
-		fail("frame-decl", "frames/declared", "no writers / onlyvia declaration found", "")
-	}
+	mine := []*FrameDecl{}
 	for _, fd := range d.cs.Frames {
+		if contains(fd.Props, prop) {
+			mine = append(mine, fd)
+		}
+	}
+	if len(mine) == 0 {
+		fail("frame-decl", "frames/declared", "no writers / onlyvia declaration found for "+prop, "")
+	}
+	for _, fd := range mine {
 		for _, a := range fd.Allowed {
 			if d.fns[a] == nil {
 				fail("frame-decl", "frames/declared@"+fd.Target+":"+a, "listed function "+a+" does not exist", "")
@@ -110,8 +117,39 @@ func (d *Driver) DisciplineFrames() *FuncVC {
 					continue
 				}
 				bad := ""
+				// the map a field holds: updates and deletes through a load of the field count as writes of the field
+				mapField := func(m ssa.Value) string {
+					if ld, ok := m.(*ssa.UnOp); ok {
+						if fa, ok := ld.X.(*ssa.FieldAddr); ok {
+							if pt, ok := fa.X.Type().Underlying().(*types.Pointer); ok {
+								if st, ok := pt.Elem().Underlying().(*types.Struct); ok {
+									return d.w.typeName(pt.Elem()) + "." + st.Field(fa.Field).Name()
+								}
+							}
+						}
+					}
+					return ""
+				}
 				for _, b := range fn.Blocks {
 					for _, ins := range b.Instrs {
+						var mpos = ins.Pos()
+						mf := ""
+						switch x := ins.(type) {
+						case *ssa.MapUpdate:
+							mf = mapField(x.Map)
+						case *ssa.Call:
+							if bi, ok := x.Call.Value.(*ssa.Builtin); ok && (bi.Name() == "delete" || bi.Name() == "clear") && len(x.Call.Args) > 0 {
+								mf = mapField(x.Call.Args[0])
+							}
+						}
+						if mf == fd.Target {
+							if allowed(fd, fn) {
+								seenAllowed[key(outerFn(fn))] = true
+							} else if bad == "" {
+								bad = d.prog.Fset.Position(mpos).String()
+							}
+							continue
+						}
 						st, ok := ins.(*ssa.Store)
 						if !ok {
 							continue
